@@ -76,6 +76,27 @@ def generated_family(seed, limit=120):
     return out
 
 
+def steps_until_inside_callee(code, limit=200):
+    """number of VM steps (concrete run on the sentinel literals) after which the first callee has executed its first instruction"""
+    ip = 0; data = []; stack = []; steps = 0
+    while steps < limit:
+        op, a, b, c = code[ip]; steps += 1
+        base = stack[-1][0] if stack else 0
+        if op in (0, 1): ip += 1
+        elif op == 2: return None
+        elif op == 3: data[base + a] = max(data[base + b] + c, 0); ip += 1
+        elif op == 11: data[base + a] = 0 if data[base + b] == data[base + c] else 1; ip += 1
+        elif op == 10: data[base + a] = b; ip += 1
+        elif op == 4: ip += a
+        elif op == 5: ip = ip + a if data[base + b] == 0 else ip + 1
+        elif op == 6: stack.append([len(data), a, c, -1]); data += [0] * a; ip += 1
+        elif op == 7: data[stack[-1][0] + a] = data[stack[-2][0] + b]; ip += 1
+        elif op == 8: stack[-1][3] = ip + 1; ip = a; return steps + 1
+        elif op == 9:
+            fr = stack.pop(); data[stack[-1][0] + fr[2]] = data[fr[0] + a]; ip = fr[3]; del data[fr[0]:]
+    return None
+
+
 def nlits(prog):
     m = [-1]
     def walk(x):
@@ -207,26 +228,35 @@ def build_jobs(prop, tier, seed, wd, entries=('h_ctv',), tags=None, only=None):
         open(dpath, 'w').write(data)
         defines = ['CTV_DATA="%s"' % dpath, 'MINISTL_VEC_CAP=%d' % (info['routines'] + 1), 'MINISTL_STR_CAP=12', 'MINISTL_MAP_CAP=%d' % max(3, len(dump['line_info']) + 1),
                    'VM_CAPS_L=%d' % info['ncode'], 'VM_CAPS_DW=%d' % info['dw'], 'VM_CAPS_NSITE=%d' % max(1, len(dump['line_info']))]
+        ents = []
         for entry in entries:
-            j = fw.Job('ctv.%s.%s' % (name, entry), H, entry, tus=TUS, defines=defines, caps='caps_ctv.hpp', unwind=info['maxfs'] + 2, tags=tags or [prop],
+            if entry == 'h_ctv_hist':
+                # reset points: inside the first callee (right after the first EXEC) and after about half of the straight-line run
+                inside = steps_until_inside_callee(dump['code'])
+                k1s = sorted(set(([inside] if inside else []) + [max(2, len(dump['code']) // 2)]))
+                if tier == 'quick': k1s = k1s[:1]
+                ents += [(entry, k1) for k1 in k1s]
+            else: ents.append((entry, None))
+        for entry, k1 in ents:
+            j = fw.Job('ctv.%s.%s%s' % (name, entry, '' if k1 is None else '.k%d' % k1), H, entry, tus=TUS, defines=defines + ([] if k1 is None else ['CTV_K1=%d' % k1]), caps='caps_ctv.hpp', unwind=info['maxfs'] + 2, unwindset={'_ZL15run_and_compareRN4Theo2VMEb.0': kv + 1}, tags=tags or [prop],
                        timeout=600 if tier == 'quick' else 1500,
                        what='shape %s: real VM on the natively compiled program (every literal symbolic) vs reference interpreter; stepping run' % name,
                        bounds='%d VM steps, %d reference steps, %d literals (31-bit symbolic), %d instructions, <= %d stops' % (kv, kv, info['nlit'], info['ncode'], nev),
                        functions=['Theo::VM::executeSingle', 'Theo::VM::getCurrentBreak', 'Theo::VM::setSteppingMode', 'Theo::compile (native, per shape)'],
-                       build_key=('ctv', name))
+                       build_key=('ctv', name, k1), extra=['--object-bits', '12'])
             jobs.append(j)
         meta[name] = {'prog': prog, 'include': include, 'files': files, 'routines': routines, 'info': info}
     return jobs, meta, problems
 
 
-def run_family(prop, tier, seed, wd, out, entries, loopy=False):
+def run_family(prop, tier, seed, wd, out, entries, loopy=False, tags=None):
     """build + run the C-tv jobs and merge their verdicts into `out`; returns coverage keys"""
     fam_only = None
-    jobs, meta, problems = build_jobs(prop, tier, seed, wd, entries=entries, tags=[prop])
+    jobs, meta, problems = build_jobs(prop, tier, seed, wd, entries=entries, tags=tags or [prop])
     if not loopy:
         # shapes with data-dependent control flow are decided by the per-construct simulation obligations (sim.py), not by bounded runs:
         # a symbolic instruction pointer makes the bounded run intractable (measured: 16 VM steps of while_dec = 577 s / 11 GB)
-        jobs = [j for j in jobs if j.entry != 'h_ctv' or j.name.split('.')[1] not in LOOPY and not j.name.split('.')[1].startswith('gen_loop') and not j.name.split('.')[1].startswith('gen_while')]
+        jobs = [j for j in jobs if j.entry == 'h_wf' or j.name.split('.')[1] not in LOOPY and not j.name.split('.')[1].startswith('gen_loop') and not j.name.split('.')[1].startswith('gen_while')]
     for j in jobs:
         if j.entry == 'h_wf': j.native = False
     fw.run_jobs(prop, jobs, wd, workers=8)
